@@ -18,14 +18,7 @@ fn get_dependencies_from_type(
                     res.push(id.clone());
                     get_dependencies(tp, types, res, seen);
                     for parameter in parameters {
-                        let id = parameter.id().to_string();
-                        if let Some(tp) = types.get(&id) {
-                            if seen.insert(id.clone()) {
-                                res.push(id.clone());
-                                get_dependencies(tp, types, res, seen);
-                                seen.remove(&id.clone());
-                            }
-                        }
+                        get_dependencies_from_type(parameter, types, res, seen);
                     }
                     seen.remove(&id.clone());
                 }
